@@ -791,6 +791,42 @@ func GridCases() []Case {
 	out = append(out, unitClassCases()...)
 	out = append(out, exactLimitCases()...)
 	out = append(out, nearMissCases()...)
+	out = append(out, mixedWidthCases()...)
+	return out
+}
+
+// mixedWidthCases: GB18030 texts that mix one-, two- and four-octet characters so that simple size
+// relations hold by coincidence (k four-octet characters balanced by 2k one-octet ones: the encoded length
+// is exactly twice the number of characters, as for a pure two-octet text) while the two-octet characters
+// sit at ODD offsets and straddle the part boundary. The same for UCS-2 with astral characters next to
+// each other at the boundary (low surrogate | high surrogate).
+func mixedWidthCases() []Case {
+	var out []Case
+	rep := func(r rune, n int) string {
+		b := make([]rune, n)
+		for i := range b {
+			b[i] = r
+		}
+		return string(b)
+	}
+	for n := 62; n <= 72; n++ {
+		for k := 1; k <= 2; k++ {
+			astral := rep(0x1F600, k)
+			ascii2 := rep('b', 2*k-1)
+			for _, t := range []string{
+				"a" + rep(0x4E2D, n) + astral + ascii2 + rep(0x6587, 80),
+				"a" + astral + ascii2 + rep(0x4E2D, n+70),
+				rep(0x4E2D, n) + "a" + astral + rep(0x6587, 70) + ascii2,
+			} {
+				out = append(out, Case{Proto: "cmpp", Coding: 15, Ref: byte(n), Text: vk.Hex([]byte(t)), Note: fmt.Sprintf("GB18030 mixed widths, encoded length = 2 x characters, n=%d k=%d", n, k)})
+			}
+		}
+		// UCS-2: two (three) astral characters directly next to each other around the boundary at unit 67
+		for _, t := range []string{rep(0x597D, n) + rep(0x1F600, 2) + rep(0x7684, 40), rep(0x597D, n) + rep(0x1F600, 3) + rep(0x7684, 40), rep('a', n) + rep(0x1F600, 4) + rep('b', 70)} {
+			out = append(out, Case{Proto: "smpp", Coding: 8, Ref: byte(n), Text: vk.Hex([]byte(t)), Note: fmt.Sprintf("UCS-2 adjacent astral characters around the boundary, n=%d", n)})
+			out = append(out, Case{Proto: "cmpp", Coding: 8, Ref: byte(n), Text: vk.Hex([]byte(t)), Note: fmt.Sprintf("UCS-2 adjacent astral characters around the boundary, n=%d", n)})
+		}
+	}
 	return out
 }
 
